@@ -230,28 +230,105 @@ def _check_is_mergeable(ctx: Ctx, m: pf.Module, facts: Facts) -> None:
 MERGE_URL = re.compile(r'/pulls/\x00/merge/?$')
 
 
+GRAPHQL_MERGE = ('mergePullRequest', 'enablePullRequestAutoMerge', 'enqueuePullRequest')
+
+
+def _is_merge_url(e: ast.AST) -> bool:
+    tpl = pf.fstring_template(e, lambda x: '\x00')
+    if tpl is None and isinstance(e, ast.BinOp) and isinstance(e.op, ast.Add):
+        # 'a' + x + '/merge'
+        parts = []
+        stack = [e]
+        while stack:
+            x = stack.pop()
+            if isinstance(x, ast.BinOp) and isinstance(x.op, ast.Add):
+                stack.extend([x.right, x.left])
+            else:
+                t = pf.fstring_template(x, lambda y: '\x00')
+                parts.append(t if t is not None else '\x00')
+        tpl = ''.join(parts)
+    if tpl is None and isinstance(e, ast.Call) and isinstance(e.func, ast.Attribute) and e.func.attr == 'format' and pf.const_str(e.func.value) is not None:
+        tpl = re.sub(r'\{[^{}]*\}', '\x00', pf.const_str(e.func.value) or '')
+    return tpl is not None and bool(MERGE_URL.search(re.sub('\x00+', '\x00', tpl)))
+
+
 def _merge_request_sites(mods: List[pf.Module]) -> List[Tuple[pf.Module, str, ast.Call]]:
+    """Calls that carry a `…/pulls/{n}/merge` URL (directly, or through a local / module constant holding it), and calls that send a
+    GraphQL document naming a merge mutation.  A merge URL that reaches no call we can identify is an analysis error."""
     out = []
     for mod in mods:
         for qual, fn in mod.functions():
+            linked: Set[int] = set()
+            url_exprs = [n for n in pf.walk_shallow(fn) if isinstance(n, (ast.JoinedStr, ast.Constant, ast.BinOp, ast.Call)) and _is_merge_url(n)]
+            # keep outermost expressions only
+            inner = {id(x) for u in url_exprs for x in ast.walk(u) if x is not u}
+            url_exprs = [u for u in url_exprs if id(u) not in inner]
             for c in pf.calls_in(fn):
                 for a in list(c.args) + [k.value for k in c.keywords]:
-                    tpl = pf.fstring_template(a, lambda e: '\x00')
-                    if tpl is not None and MERGE_URL.search(tpl):
+                    r = pf.resolve_expr(fn, a)
+                    if isinstance(a, ast.Name) and not isinstance(r, ast.Name):
+                        pass
+                    elif isinstance(a, ast.Name):
+                        try:
+                            r = mod.global_assign(a.id)
+                        except AnalysisError:
+                            r = a
+                    hit = [u for u in url_exprs if u is r or u is a]
+                    if not hit and _is_merge_url(r):
+                        hit = [r]
+                    if hit:
                         out.append((mod, qual, c))
+                        linked.update(id(u) for u in hit)
+            for u in url_exprs:
+                if id(u) not in linked and not any(u is x for _, _, c in out for x in ast.walk(c)):
+                    raise AnalysisError(f'{mod.rel}::{qual}: merge URL `{short(pf.nsrc(u), 60)}` does not reach a call the analysis can identify')
+        for st in mod.tree.body:
+            if isinstance(st, (ast.Assign, ast.AnnAssign)) and st.value is not None and _is_merge_url(st.value):
+                names = [t.id for t in (st.targets if isinstance(st, ast.Assign) else [st.target]) if isinstance(t, ast.Name)]
+                used = any(isinstance(x, ast.Name) and x.id in names for _, _, c in out if _ is not None for x in ast.walk(c))
+                if not used:
+                    raise AnalysisError(f'{mod.rel}: module-level merge URL `{names}` does not reach a call the analysis can identify')
+    # de-duplicate
+    seen: Set[int] = set()
+    uniq = []
+    for mod, qual, c in out:
+        if id(c) not in seen:
+            seen.add(id(c))
+            uniq.append((mod, qual, c))
+    return uniq
+
+
+def _graphql_merges(mods: List[pf.Module]) -> List[Tuple[pf.Module, str, ast.AST, str]]:
+    """String constants (anywhere, nested helpers included) that name a GraphQL mutation which merges a pull request."""
+    out = []
+    for mod in mods:
+        par = None
+        for n in ast.walk(mod.tree):
+            if isinstance(n, ast.Constant) and isinstance(n.value, str):
+                for g in GRAPHQL_MERGE:
+                    if re.search(r'\b' + g + r'\b', n.value):
+                        fn = mod.enclosing_func(n)
+                        out.append((mod, mod.qualname(fn) if fn is not None else '<module>', n, g))
     return out
 
 
 _def_nodes = guards.def_nodes
 
 
-def _check_callers(ctx: Ctx, mods: List[pf.Module], m: pf.Module, facts: Facts) -> List[Tuple[pf.FuncDef, str, ast.Call]]:
+def _check_callers(ctx: Ctx, mods: List[pf.Module], m: pf.Module, facts: Facts, sites) -> List[Tuple[pf.FuncDef, str, ast.Call]]:
     # the request itself
-    sites = _merge_request_sites(mods)
     ctx.need(sites, 'no `…/pulls/{n}/merge` request found in ci/ci (anchor vanished)')
+    in_merge = [x for x in sites if x[0].rel == F and x[1] == 'PR.merge']
     for mod, qual, c in sites:
-        ctx.check(mod.rel == F and qual == 'PR.merge', 'R1', f'{mod.rel}::{qual}::merge request {short(pf.nsrc(c.func), 40)}',
-                  'the GitHub merge request is issued outside PR.merge, i.e. not behind the is_mergeable gate of try_to_merge', mod.path, c.lineno)
+        ok = mod.rel == F and qual == 'PR.merge' and c is in_merge[0][2]
+        why = ('the GitHub merge request is issued outside PR.merge, i.e. not behind the is_mergeable gate of try_to_merge' if not (mod.rel == F and qual == 'PR.merge')
+               else 'PR.merge issues a second merge request: the pinned head / single-merge analysis covers one request per call')
+        ctx.check(ok, 'R1', f'{mod.rel}::{qual}::merge request {short(pf.nsrc(c.func), 40)}' + ('' if ok or c is in_merge[0][2] or not in_merge else ' (second)'),
+                  why, mod.path, c.lineno)
+    for mod, qual, n, g in _graphql_merges(mods):
+        ctx.bad('R1', f'{mod.rel}::{qual}::graphql {g}', f'a GraphQL `{g}` mutation is issued: a second way to merge that is neither behind the is_mergeable gate of '
+                'try_to_merge nor pinned to the head commit the checks were read for (e.g. auto-merge merges once GitHub\'s own rules are met, whatever CI\'s '
+                'review / batch / label state says)', mod.path, getattr(n, 'lineno', 0))
     # callers of PR.merge
     merge_calls: List[Tuple[pf.FuncDef, str, ast.Call]] = []
     for mod in mods:
@@ -365,6 +442,19 @@ def _deep(fn: pf.FuncDef, e: ast.AST, depth: int = 4) -> str:
     return pf.nsrc(Sub(depth).visit(copy.deepcopy(e)))
 
 
+def _class_methods(m: pf.Module, name: str) -> Dict[str, pf.FuncDef]:
+    return {f.name: f for f in m.cls(name).body if isinstance(f, (ast.FunctionDef, ast.AsyncFunctionDef))}
+
+
+def _dict_at_call(ctx: Ctx, m: pf.Module, cls: str, fn: pf.FuncDef, call: ast.Call, expr: ast.expr, what: str) -> Tuple[List[guards.AbsDict], List[str]]:
+    """The abstract dicts `expr` can denote when `call` is made (one per path), through helpers and incremental construction."""
+    df = guards.DictFlow(m, fn, _class_methods(m, cls))
+    try:
+        return df.at_call(call, expr), df.helpers_followed
+    except guards.Undecided as e:
+        raise AnalysisError(f'{cls}.{fn.name}: {what} `{short(pf.nsrc(expr), 60)}` cannot be followed: {e}') from e
+
+
 def _check_pin_and_reset(ctx: Ctx, m: pf.Module, sites) -> None:
     for mod, qual, c in sites:
         if not (mod.rel == F and qual == 'PR.merge'):
@@ -372,24 +462,37 @@ def _check_pin_and_reset(ctx: Ctx, m: pf.Module, sites) -> None:
         fn = m.func('PR.merge')
         data = None
         for k in c.keywords:
-            if k.arg == 'data':
-                data = pf.resolve_expr(fn, k.value)
+            if k.arg in ('data', 'json'):
+                data = k.value
         if data is None and len(c.args) >= 2:
-            data = pf.resolve_expr(fn, c.args[1])
-        ctx.need(isinstance(data, ast.Dict), f'PR.merge: request body `{short(pf.nsrc(data) if data is not None else "?", 60)}` is not a dict literal')
-        pin = None
-        for k, v in zip(data.keys, data.values):  # type: ignore[union-attr]
-            ctx.need(k is not None, 'PR.merge: `**` in the request body is not a recognised shape')
-            if pf.const_str(k) == 'sha':
-                pin = v
+            data = c.args[1]
+        ctx.need(data is not None, f'PR.merge: `{short(pf.nsrc(c), 60)}` has no recognisable request body argument')
+        alts, helpers = _dict_at_call(ctx, m, 'PR', fn, c, data, 'request body')
         cons = f'{F}::PR.merge::request body sha'
-        if pin is None:
-            ctx.bad('R4', cons, "the merge request carries no 'sha': GitHub merges whatever the head is now, e.g. a commit pushed after the checks "
-                    'CI looked at, which was never tested', m.path, c.lineno)
+        problems: List[str] = []
+        undecided: List[str] = []
+        via = f' (built by {", ".join("PR." + h for h in helpers)})' if helpers else ''
+        for d in alts:
+            if 'sha' not in d.items:
+                if d.open:
+                    undecided.append(f'the body {d.show()} has unknown further keys')
+                else:
+                    problems.append(f"the merge request body {short(d.show(), 140)}{via} carries no 'sha': GitHub merges whatever the head is at that moment, e.g. a "
+                                    'commit pushed after the review / statuses / test batch CI looked at (history: approved green PR, author pushes S2 while '
+                                    'CI is between its refresh and the PUT -> the untested S2 is squashed into the target)')
+                continue
+            v = d.items['sha']
+            if v is None:
+                undecided.append(f"the value of 'sha' in {d.show()} is not resolved")
+            elif pf.nsrc(v) != 'self.source_sha':
+                problems.append(f"the merge request pins 'sha': {pf.nsrc(v)}{via} instead of self.source_sha (the head the statuses and test batch refer to): "
+                                'self.sha is the local merge commit and never equals the PR head, other values let an untested head through')
+        if problems:
+            ctx.bad('R4', cons, problems[0], m.path, c.lineno, extra=[d.show() for d in alts])
+        elif undecided:
+            raise AnalysisError(f'PR.merge: {undecided[0]}')
         else:
-            ctx.check(pf.nsrc(pin) == 'self.source_sha', 'R4', cons, f"the merge request pins 'sha': {pf.nsrc(pin)} instead of self.source_sha (the head the "
-                      'statuses and test batch refer to): self.sha is the local merge commit and never equals the PR head, other values let an untested head through',
-                      m.path, c.lineno)
+            ctx.ok('R4', cons, {'bodies': [d.show() for d in alts], 'helpers': helpers})
     # reset on head change
     fn = m.func('PR.update_from_gh_json')
     params = [a.arg for a in fn.args.args]
@@ -627,13 +730,20 @@ def _check_tested_chain(ctx: Ctx, mods: List[pf.Module], m: pf.Module, facts: Fa
     attrs = None
     for k in created[0].keywords:
         if k.arg == 'attributes':
-            attrs = pf.resolve_expr(fn, k.value)
-    ctx.need(isinstance(attrs, ast.Dict), 'PR._start_build: create_batch(attributes=…) is not a dict literal')
-    amap = {pf.const_str(k): pf.nsrc(v) for k, v in zip(attrs.keys, attrs.values) if k is not None}  # type: ignore[union-attr]
+            attrs = k.value
+    ctx.need(attrs is not None, 'PR._start_build: create_batch(…) without attributes=')
+    alts, _helpers = _dict_at_call(ctx, m, 'PR', fn, created[0], attrs, 'create_batch attributes')
     for key, want, why in (('target_sha', 'self.target_branch.sha', 'is_up_to_date compares this attribute with the current target commit'),
                            ('source_sha', 'self.source_sha', 'the batch is looked up by this attribute for the current head')):
-        ctx.check(amap.get(key) == want, 'R5', f"{F}::PR._start_build::create_batch attributes['{key}']",
-                  f"the test batch is labelled '{key}': {amap.get(key)} instead of {want}; {why}, so a batch that tested something else counts", m.path, created[0].lineno)
+        got = []
+        for d in alts:
+            ctx.need(key in d.items or not d.open, f'PR._start_build: create_batch attributes {d.show()} have unknown further keys')
+            ctx.need(key not in d.items or d.items[key] is not None, f"PR._start_build: attribute '{key}' in {d.show()} is not resolved")
+            got.append(pf.nsrc(d.items[key]) if key in d.items else None)
+        wrong = [g for g in got if g != want]
+        ctx.check(not wrong, 'R5', f"{F}::PR._start_build::create_batch attributes['{key}']",
+                  f"the test batch is labelled '{key}': {wrong[0] if wrong else None} instead of {want}; {why}, so a batch that tested something else counts",
+                  m.path, created[0].lineno)
     # checkout script tests target_branch.sha + source_sha
     fn = m.func('PR.checkout_script')
     rets = [n for n in pf.walk_shallow(fn) if isinstance(n, ast.Return)]
